@@ -6,6 +6,7 @@ import DiskfsModel.Model.Iso.Reader
 import DiskfsModel.Model.Iso.Image
 import DiskfsModel.Model.Iso.Writes
 import DiskfsModel.Model.Iso.Susp
+import DiskfsModel.Generated.Iso
 import Driver.IsoX
 namespace Driver.Iso
 open Diskfs Diskfs.Iso Driver
@@ -355,7 +356,8 @@ def suspOp (args : List String) : String :=
 def ucs2Op (args : List String) : String :=
   let cps := natList ((arg args "cps").getD "-")
   let b := unDash ((arg args "b").getD "-")
-  s!"enc={hexOrDash (ucs2Enc cps)}\tdec={strOfNats (ucs2Dec b)}"
+  let u := Diskfs.Generated.Iso.jolietUtf16   -- the codec the tree has (regenerated fact)
+  s!"enc={hexOrDash (jolietEnc u cps)}\tdec={strOfNats (jolietDec u b)}"
 
 /-- iso.ptlookup recs=namehex:loc:parent;… path=hex/hex/… → loc= -/
 def ptLookupOp (args : List String) : String :=
